@@ -591,8 +591,9 @@ func (s *Subtitles) Fragment(f time.Duration) {
 		//             |____________________|             <- subtitle
 		//           |                        |
 		//   fragment start at        fragment end at
-		for i, sub := range s.Items {
+		for i := 0; i < len(s.Items); i++ {
 			// Init
+			var sub = s.Items[i]
 			var newSub = &Item{}
 			*newSub = *sub
 
@@ -617,7 +618,9 @@ func (s *Subtitles) Fragment(f time.Duration) {
 			}
 
 			// Insert new sub
+			// The subtitle we've just processed is now located right after the new sub, we need to skip it
 			s.Items = append(s.Items[:i], append([]*Item{newSub}, s.Items[i:]...)...)
+			i++
 		}
 
 		// Update fragments boundaries
